@@ -29,9 +29,10 @@ VARIABLES
   master,  \* label of the session that won the last election ("" none; may be closed)
   req,     \* the ModifyRequest in progress
   sout,    \* what the last completed server step answered (output only)
-  ann      \* history: set of election ids validly announced so far
+  ann,     \* history: set of election ids validly announced so far
+  sf       \* the transport fails on the server's first write for the message in progress
 
-svars   == <<sess, cur, master, req, sout, ann>>
+svars   == <<sess, cur, master, req, sout, ann, sf>>
 allvars == <<vars, svars>>
 
 NoId == <<0, 0>>
@@ -52,10 +53,10 @@ ParamsOf(m) == [elec |-> m.red = "SINGLE_PRIMARY", persist |-> m.per = "PRESERVE
 
 -----------------------------------------------------------------------------
 SInit ==
-  /\ sess = EmptyFn /\ cur = NoId /\ master = "" /\ req = IdleReq /\ sout = NoSOut /\ ann = {}
+  /\ sess = EmptyFn /\ cur = NoId /\ master = "" /\ req = IdleReq /\ sout = NoSOut /\ ann = {} /\ sf = FALSE
 
 SReset ==
-  /\ sess' = EmptyFn /\ cur' = NoId /\ master' = "" /\ req' = IdleReq /\ sout' = NoSOut /\ ann' = {}
+  /\ sess' = EmptyFn /\ cur' = NoId /\ master' = "" /\ req' = IdleReq /\ sout' = NoSOut /\ ann' = {} /\ sf' = FALSE
 
 Idle == ~req.active /\ ~call.active
 
@@ -63,7 +64,7 @@ Open(s) ==
   /\ Idle /\ s \notin DOMAIN sess
   /\ sess' = Put(sess, s, NewSess)
   /\ sout' = [kind |-> "open", s |-> s]
-  /\ UNCHANGED <<vars, cur, master, req, ann>>
+  /\ UNCHANGED <<vars, cur, master, req, ann, sf>>
 
 \* the client goes away (half-close, receive error, send error): only the
 \* session's own footprint disappears (PRESERVE persistence)
@@ -72,7 +73,7 @@ Close(s, mode) ==
   /\ Idle /\ s \in DOMAIN sess
   /\ sess' = Del(sess, s)
   /\ sout' = [kind |-> "close", s |-> s, end |-> End(CloseCode(mode), "")]
-  /\ UNCHANGED <<vars, cur, master, req, ann>>
+  /\ UNCHANGED <<vars, cur, master, req, ann, sf>>
 
 (* ---- session parameters ---- *)
 ParamsVerdict(s, m) ==
@@ -117,8 +118,10 @@ OkResults(ids, fib) ==
 FailResults(ids) == [i \in DOMAIN ids |-> Res(ids[i], "FAILED")]
 OpResp(oks, fails, fib) == [k |-> "res", results |-> OkResults(oks, fib) \o FailResults(fails)]
 
-MsgBegin(s, m) ==
+\* f: the transport fails when the server first writes a response for this message
+MsgBegin(s, m, f) ==
   /\ Idle /\ s \in DOMAIN sess
+  /\ sf' = f
   /\ CASE m.k = "multi" ->
             /\ req' = [IdleReq EXCEPT !.active = TRUE, !.s = s, !.end = End("InvalidArgument", "")]
             /\ UNCHANGED <<sess, cur, master, ann>>
@@ -157,7 +160,8 @@ MsgBegin(s, m) ==
                  /\ UNCHANGED <<sess, cur, master, ann>>
   /\ UNCHANGED <<vars, sout>>
 
-OpReady == req.active /\ req.end = NoEnd /\ req.ops # <<>> /\ ~call.active
+WriteFailed == sf /\ req.resp # <<>>
+OpReady == req.active /\ req.end = NoEnd /\ req.ops # <<>> /\ ~call.active /\ ~WriteFailed
 HeadOp  == Head(req.ops)
 
 \* answered by the server itself: FAILED in-band, or an error that ends the RPC
@@ -168,7 +172,7 @@ OpDirect ==
      /\ req' = IF p.k = "failed"
                THEN [req EXCEPT !.ops = Tail(@), !.resp = Append(@, OpResp(<<>>, <<HeadOp.id>>, req.fib))]
                ELSE [req EXCEPT !.end = p.end]
-  /\ UNCHANGED <<vars, sess, cur, master, sout, ann>>
+  /\ UNCHANGED <<vars, sess, cur, master, sout, ann, sf>>
 
 OpAdd ==
   /\ OpReady /\ OpPre(HeadOp).k = "rib" /\ HeadOp.typ \in {"ADD", "REPLACE"}
@@ -181,27 +185,28 @@ OpAddEnd ==
   /\ req.active /\ call.active /\ call.stack = <<>>
   /\ CallEnd
   /\ req' = [req EXCEPT !.ops = Tail(@), !.resp = Append(@, OpResp(call.oks, call.fails, req.fib))]
-  /\ UNCHANGED <<sess, cur, master, sout, ann>>
+  /\ UNCHANGED <<sess, cur, master, sout, ann, sf>>
 
 OpDelete ==
   /\ OpReady /\ OpPre(HeadOp).k = "rib" /\ HeadOp.typ = "DELETE"
   /\ Delete(HeadOp)
   /\ LET n == DeleteNext(HeadOp) IN
      req' = [req EXCEPT !.ops = Tail(@), !.resp = Append(@, OpResp(n.out.oks, n.out.fails, req.fib))]
-  /\ UNCHANGED <<sess, cur, master, sout, ann>>
+  /\ UNCHANGED <<sess, cur, master, sout, ann, sf>>
 
 \* the RIB refused the call outright (malformed operation): the RPC ends
 OpRibErr ==
   /\ OpReady /\ OpPre(HeadOp).k = "rib" /\ HeadOp.bad # ""
   /\ CallErr(HeadOp)
   /\ req' = [req EXCEPT !.end = End("Unimplemented", "")]
-  /\ UNCHANGED <<sess, cur, master, sout, ann>>
+  /\ UNCHANGED <<sess, cur, master, sout, ann, sf>>
 
 MsgEnd ==
-  /\ req.active /\ ~call.active /\ (req.ops = <<>> \/ req.end # NoEnd)
-  /\ sout' = [kind |-> "msg", s |-> req.s, resp |-> req.resp, end |-> req.end]
-  /\ sess' = IF req.end # NoEnd THEN Del(sess, req.s) ELSE sess
-  /\ req' = IdleReq
+  /\ req.active /\ ~call.active /\ (req.ops = <<>> \/ req.end # NoEnd \/ WriteFailed)
+  /\ LET end2 == IF req.end = NoEnd /\ WriteFailed THEN End("Internal", "") ELSE req.end IN
+     /\ sout' = [kind |-> "msg", s |-> req.s, resp |-> IF sf THEN <<>> ELSE req.resp, end |-> end2]
+     /\ sess' = IF end2 # NoEnd THEN Del(sess, req.s) ELSE sess
+  /\ req' = IdleReq /\ sf' = FALSE
   /\ UNCHANGED <<vars, cur, master, ann>>
 
 (* ---- Flush RPC ---- *)
@@ -229,7 +234,7 @@ FlushRPC(r) ==
   /\ IF FlushFinal(r) = NoEnd
      THEN Flush(FlushSet(r)) /\ sout' = [kind |-> "flush", end |-> End("OK", "")]
      ELSE UNCHANGED vars /\ sout' = [kind |-> "flush", end |-> FlushFinal(r)]
-  /\ UNCHANGED <<sess, cur, master, req, ann>>
+  /\ UNCHANGED <<sess, cur, master, req, ann, sf>>
 
 (* ---- Get RPC ---- *)
 \* g = [ni : "*" | name (possibly ""), aft : "ALL" | "nh" | "nhg" | "v4" | "v6" | "mpls" | other]
@@ -248,7 +253,7 @@ GetRPC(g) ==
   /\ Idle
   /\ sout' = IF GetOK(g) THEN [kind |-> "get", end |-> End("OK", ""), entries |-> GetEntries(g)]
              ELSE [kind |-> "get", end |-> End("Internal", ""), entries |-> {}]
-  /\ UNCHANGED <<vars, sess, cur, master, req, ann>>
+  /\ UNCHANGED <<vars, sess, cur, master, req, ann, sf>>
 
 -----------------------------------------------------------------------------
 (* Properties *)
